@@ -1,6 +1,6 @@
 (** C05 — automatic conflict resolution prefers shift, then the earliest production. *)
 From Coq Require Import List Arith Lia Bool Permutation.
-From Gocc Require Import LR.Parse LR.Resolve LR.ResolveProofs.
+From Gocc Require Import LR.Parse LR.Validate LR.Resolve LR.ResolveProofs LR.Canonical LR.Gen LR.GenAuto LR.GenAutoProofs.
 Import ListNotations.
 
 (** For every list of candidate actions competing for one (state, terminal) cell, in every order
@@ -52,3 +52,49 @@ Print Assumptions C05_refused_iff.
 Example C05_example : row_action [Some (Reduce 5); None; Some (Shift 7); Some (Reduce 3); Some (Reduce 5)]
   = Some (Some (Shift 7), [Reduce 5; Shift 7; Reduce 3]).
 Proof. vm_compute. reflexivity. Qed.
+
+(** * For EVERY grammar: the model of gocc's generator in mode -a (LR/GenAuto.v, compared with gocc -a on every run:
+    item sets, numbering, announced count, refusal, and the resolved tables as compiled). *)
+
+(** the automaton it resolves is the canonical LR(1) collection, conflicts or not *)
+Theorem C05_every_grammar_automaton_canonical : forall g nn ntm symbols la_order p_acts terr fuel an tr,
+  (exists tb n, gen_run_auto g nn ntm symbols la_order p_acts terr fuel = AutoOk tb an tr n) \/
+  gen_run_auto g nn ntm symbols la_order p_acts terr fuel = AutoRefused an tr ->
+  auto_valid g ntm an tr = true.
+Proof. exact gen_auto_automaton_valid. Qed.
+Print Assumptions C05_every_grammar_automaton_canonical.
+
+(** every cell of the table it writes: shift iff some item of the state shifts on the terminal, otherwise the least
+    production among the reductions on that look-ahead, otherwise accept / no action *)
+Theorem C05_every_grammar_cells_resolved : forall g nn ntm symbols la_order p_acts terr fuel tb an tr n,
+  gen_run_auto g nn ntm symbols la_order p_acts terr fuel = AutoOk tb an tr n ->
+  forall s a, s < length (a_items an) -> a < ntm ->
+  exists w, action_at tb s a = Some w /\
+    (forall t, w = Some (Shift t) <-> In (Some (Shift t)) (cands g an tr s a)) /\
+    (forall p, w = Some (Reduce p) <->
+       (forall t, ~ In (Some (Shift t)) (cands g an tr s a)) /\ In (Some (Reduce p)) (cands g an tr s a) /\
+       forall q, In (Some (Reduce q)) (cands g an tr s a) -> p <= q) /\
+    (w = Some Accept <-> In (Some Accept) (cands g an tr s a)) /\
+    (w = None <-> forall x, ~ In (Some x) (cands g an tr s a)).
+Proof. exact gen_auto_cell_rule. Qed.
+Print Assumptions C05_every_grammar_cells_resolved.
+
+(** entries (indeed whole tables) of a conflict-free grammar are unaffected by -a *)
+Theorem C05_every_grammar_unaffected_without_conflict : forall g nn ntm symbols la_order p_acts terr fuel tb an tr,
+  gen_run g nn ntm symbols la_order p_acts terr fuel = GenOk tb an tr ->
+  gen_run_auto g nn ntm symbols la_order p_acts terr fuel = AutoOk tb an tr 0.
+Proof. exact gen_auto_conservative. Qed.
+Print Assumptions C05_every_grammar_unaffected_without_conflict.
+
+(** the number announced with the tables is positive exactly when the grammar is not LR(1); generation is refused
+    only when accepting competes with another action in the canonical collection *)
+Theorem C05_every_grammar_announced : forall g nn ntm symbols la_order p_acts terr fuel tb an tr n,
+  gen_run_auto g nn ntm symbols la_order p_acts terr fuel = AutoOk tb an tr n -> (0 < n <-> canonical_conflict g).
+Proof. exact gen_auto_reports_iff_not_LR1. Qed.
+Print Assumptions C05_every_grammar_announced.
+
+Theorem C05_every_grammar_refused : forall g nn ntm symbols la_order p_acts terr fuel an tr,
+  gen_run_auto g nn ntm symbols la_order p_acts terr fuel = AutoRefused an tr ->
+  gocc_reports g ntm an tr = None /\ canonical_accept_conflict g.
+Proof. exact gen_auto_refused. Qed.
+Print Assumptions C05_every_grammar_refused.
